@@ -452,3 +452,70 @@ pub fn mean_se(v: &[f64]) -> (f64, f64) {
     let var = v.iter().map(|x| (x - mean) * (x - mean)).sum::<f64>() / (n - 1.).max(1.);
     (mean, (var / n).sqrt())
 }
+
+// ------------------------------------------------------------------------------------------------
+// watchdog for in-process calls that may not terminate
+
+use std::collections::HashMap;
+use std::sync::atomic::{AtomicBool, Ordering};
+use std::sync::OnceLock;
+use std::thread::ThreadId;
+
+type TimeoutHandler = Box<dyn Fn(&str) + Send + Sync>;
+
+struct WatchState {
+    calls: Mutex<HashMap<ThreadId, (Instant, String)>>,
+    handler: Mutex<Option<TimeoutHandler>>,
+    started: AtomicBool,
+}
+
+static WATCH: OnceLock<WatchState> = OnceLock::new();
+
+fn watch_state() -> &'static WatchState {
+    WATCH.get_or_init(|| WatchState { calls: Mutex::new(HashMap::new()), handler: Mutex::new(None), started: AtomicBool::new(false) })
+}
+
+/// start the watchdog thread: if a watched call runs longer than `horizon`, `handler(description)` is called
+/// (it is expected to report the violation, write the evidence and exit the process)
+pub fn start_watchdog(horizon: Duration, handler: impl Fn(&str) + Send + Sync + 'static) {
+    let ws = watch_state();
+    *ws.handler.lock().unwrap() = Some(Box::new(handler));
+    if ws.started.swap(true, Ordering::SeqCst) {
+        return;
+    }
+    std::thread::spawn(move || loop {
+        std::thread::sleep(Duration::from_millis(100));
+        let ws = watch_state();
+        let overdue: Option<String> = {
+            let g = ws.calls.lock().unwrap();
+            g.values().filter(|(t, _)| t.elapsed() > horizon).map(|(_, d)| d.clone()).min()
+        };
+        if let Some(desc) = overdue {
+            if let Some(h) = ws.handler.lock().unwrap().as_ref() {
+                h(&desc);
+            }
+            println!("ENGINE-ERROR watchdog handler returned; exiting");
+            std::process::exit(2);
+        }
+    });
+}
+
+pub struct WatchGuard;
+
+/// mark the start of a call that may hang; the guard clears the mark
+pub fn watched(desc: impl FnOnce() -> String) -> WatchGuard {
+    let ws = watch_state();
+    if ws.started.load(Ordering::Relaxed) {
+        ws.calls.lock().unwrap().insert(std::thread::current().id(), (Instant::now(), desc()));
+    }
+    WatchGuard
+}
+
+impl Drop for WatchGuard {
+    fn drop(&mut self) {
+        let ws = watch_state();
+        if ws.started.load(Ordering::Relaxed) {
+            ws.calls.lock().unwrap().remove(&std::thread::current().id());
+        }
+    }
+}
